@@ -9,6 +9,8 @@ theorems of coq/C10/Props.v are re-checked against it.  Correspondence streams:
             constraint counters (incl. null steps) vs the model loop
   runs      final states of real RFO/CRFO/PRFO/steepest-descent runs: conv_params, cart_proj_g masking,
             converged, iteration, limit test vs the model
+  (calc     optimisations through Calculation/CalculationExecutorO in one directory with the calculation registry on:
+            same name + other constraints, unconstrained then constrained, exact repeats — oracles only)
 Implementation-side property oracles (always run; they produce the concrete replays): the decision
 oracle on ConvergenceParams, and real optimisers driven by an analytic mock Method.
 """
@@ -46,7 +48,9 @@ RULE = ("params: criteria (4 presets, dyadic random, unset attributes, zero/inf)
         "scripted: random scripts of step/null-step, energies, gradients, constraint flags x maxiter x criteria. "
         "runs: surfaces {harmonic, Morse networks, LJ3/LJ4, triatomic and diatomic double wells} x perturbed starts "
         "(incl. exact stationary start) x {Cartesian/DIC steepest descent, RFO, CRFO with 0-2 distance constraints, "
-        "PRFO} x tolerance presets/custom/strict x maxiter (1..3 and 40..200); distinct by the full case spec")
+        "PRFO} x tolerance presets/custom/strict/thresholds in eV, kcal/mol, bohr, pm x maxiter (1..3 and 40..300, incl. "
+        "runs of > 10 iterations for the reload); distinct by the full case spec. calc: sequences of Calculation(OptKeywords) "
+        "through CalculationExecutorO in one directory (same name with changed / added constraints, exact repeats)")
 
 SLICE = ["lib/Sums.v", "lib/QcInst.v", "C10/Base.v", "C10/Model.v", "C10/Lemmas.v", "C10/Props.v", "C10/Corr.v",
          "gen/C10_Gen.v"]
@@ -55,6 +59,30 @@ PRE = ("From Coq Require Import ZArith QArith Qcanon List Bool.\nFrom AV.lib Req
 ATTRS = ["abs_d_e", "rms_g", "max_g", "rms_s", "max_s"]
 GRAD = {"rms_g", "max_g"}
 CONSTRAINT_TOL = 1e-4          # ConstrainedPrimitive.is_satisfied default (primitives.py:177-183)
+
+
+# independent conversion factors to the base units (Ha, Ha/Å, Å) and the documented (ORCA) presets
+BOHR = 0.529177210903
+TO_BASE = {"abs_d_e": {"Ha": 1.0, "eV": 1.0 / 27.211386245988, "kcalmol": 1.0 / 627.5094740631, "kjmol": 1.0 / 2625.4996394799},
+           "grad": {"Ha/ang": 1.0, "Ha/bohr": 1.0 / BOHR, "eV/ang": 1.0 / 27.211386245988},
+           "dist": {"ang": 1.0, "bohr": BOHR, "pm": 0.01, "nm": 10.0}}
+UNIT_KIND = {"abs_d_e": "abs_d_e", "rms_g": "grad", "max_g": "grad", "rms_s": "dist", "max_s": "dist"}
+PRESETS = {"loose": (3e-5, 5e-4, 2e-3, 7e-3, 1e-2), "normal": (5e-6, 1e-4, 3e-4, 2e-3, 4e-3),
+           "tight": (1e-6, 3e-5, 1e-4, 6e-4, 1e-3), "verytight": (2e-7, 8e-6, 3e-5, 1e-4, 2e-4)}   # Ha, Ha/bohr, bohr
+
+
+def independent_tol(spec):
+    """The requested thresholds in base units, computed without the implementation. -> ([5 values], strict)"""
+    if isinstance(spec, str):
+        e, rg, mg, rs, ms = PRESETS[spec]
+        return [e, rg / BOHR, mg / BOHR, rs * BOHR, ms * BOHR], False
+    out = []
+    for a in ATTRS:
+        v = spec.get(a)
+        if isinstance(v, (list, tuple)):
+            v = v[0] * TO_BASE[UNIT_KIND[a]][v[1]]
+        out.append(v)
+    return out, bool(spec.get("strict", False))
 
 
 # ============================================================================ Coq literals
@@ -226,7 +254,11 @@ def get_env():
     import autode.methods as methods_mod
     from autode.wrappers.methods import Method
     from autode.wrappers.keywords.keywords import KeywordsSet, HessianKeywords
-    from autode.values import PotentialEnergy, Gradient
+    from autode.values import PotentialEnergy, Gradient, GradientRMS, Distance
+    from autode.calculations import Calculation
+    from autode.calculations.types import CalculationType
+    from autode.wrappers.keywords.keywords import OptKeywords
+    import copy as _copy
     from autode.hessians import Hessian
     from autode.opt.optimisers.base import ConvergenceParams, NDOptimiser
     from autode.opt.optimisers.steepest_descent import CartesianSDOptimiser, DIC_SD_Optimiser
@@ -246,8 +278,17 @@ def get_env():
         def __repr__(self):
             return "C10Mock"
 
+        native_opt = True
+
         def implements(self, calculation_type):
-            return True
+            return self.native_opt or calculation_type != CalculationType.opt
+
+        def __deepcopy__(self, memo):
+            # CalculationExecutorO.run works on method.copy(): the evaluation log must stay shared
+            new = type(self)(self.pot)
+            new.log, new.native_opt = self.log, self.native_opt
+            new.keywords = _copy.deepcopy(self.keywords, memo)
+            return new
 
         @property
         def uses_external_io(self):
@@ -309,16 +350,27 @@ def get_env():
     env = Env()
     env.ade, env.methods_mod, env.Mock, env.CP = ade, methods_mod, Mock, ConvergenceParams
     env.SCoords, env.Scripted = SCoords, Scripted
+    env.PotentialEnergy, env.GradientRMS, env.Distance = PotentialEnergy, GradientRMS, Distance
+    env.Calculation, env.OptKeywords = Calculation, OptKeywords
     env.classes = {"sd_cart": CartesianSDOptimiser, "sd_dic": DIC_SD_Optimiser, "rfo": RFOptimiser,
                    "crfo": CRFOptimiser, "prfo": PRFOptimiser}
     env.base_file = os.path.join(REPO, "autode", "opt", "optimisers", "base.py")
     return env
 
 
+def make_value(env, a, v):
+    """A threshold as the user would write it: a bare number (base units) or [number, unit] -> a Value object"""
+    if not isinstance(v, (list, tuple)):
+        return v
+    cls = {"abs_d_e": env.PotentialEnergy, "grad": env.GradientRMS, "dist": env.Distance}[UNIT_KIND[a]]
+    return cls(v[0], units=v[1])
+
+
 def make_tol(env, spec):
     if isinstance(spec, str):
         return env.CP.from_preset(spec)
-    return env.CP(**{a: spec[a] for a in ATTRS if spec.get(a) is not None}, strict=bool(spec.get("strict", False)))
+    return env.CP(**{a: make_value(env, a, spec[a]) for a in ATTRS if spec.get(a) is not None},
+                  strict=bool(spec.get("strict", False)))
 
 
 # ============================================================================ stream 1: ConvergenceParams
@@ -432,6 +484,40 @@ def stream_params(ctx, env, factor_lists, full, fail):
         terms.append(f"(check_meets {C} {V} {res_bool(ans if err is None else err)} && check_sat {C} {V} {sat_t})")
         descr.append(d)
         ctx.count("params", key, nontrivial=any(finite(x) for x in cv), sample=d)
+    # thresholds written in other units must be stored (and compared) in base units
+    rng = ctx.rng
+    unit_specs = [{"abs_d_e": [0.01, "kcalmol"], "rms_g": [0.02, "eV/ang"], "max_g": [0.05, "eV/ang"],
+                   "rms_s": [0.004, "bohr"], "max_s": [1.0, "pm"]},
+                  {"abs_d_e": [0.05, "kjmol"], "rms_g": [2e-4, "Ha/bohr"], "max_g": None, "rms_s": [0.0005, "nm"], "max_s": None},
+                  {"abs_d_e": [1e-4, "eV"], "rms_g": [1e-3, "Ha/ang"], "max_g": [0.1, "eV/ang"], "rms_s": None, "max_s": [0.01, "bohr"]}]
+    for _ in range(6 if full else 2):
+        unit_specs.append({a: (None if (a != "rms_g" and rng.random() < 0.3) else
+                               [round(rng.uniform(0.5, 5.0), 3) * {"abs_d_e": 1e-2, "grad": 1e-2, "dist": 1e-2}[UNIT_KIND[a]],
+                                rng.choice(sorted(TO_BASE[UNIT_KIND[a]]))]) for a in ATTRS})
+    for spec in unit_specs:
+        for strict in (False, True):
+            spec = dict(spec, strict=strict)
+            want, _ = independent_tol(spec)
+            cobj, cerr = call_result(lambda: make_tol(env, spec))
+            rep = {"kind": "params-units", "criteria": spec}
+            ctx.count("params", ("units", json.dumps(spec, sort_keys=True)), sample=rep if not strict else None)
+            if cobj is None:
+                fail("ConvergenceParams|threshold-units-not-converted", f"ConvergenceParams({spec}) raised {cerr}", rep)
+                continue
+            got = cp_vals(cobj)
+            bad = [f"{a}: {spec[a]} stored as {g!r}, is {w!r} in base units" for a, g, w in zip(ATTRS, got, want)
+                   if (g is None) != (w is None) or (w is not None and abs(g - w) > 1e-4 * abs(w))]
+            if bad:
+                fail("ConvergenceParams|threshold-units-not-converted",
+                     "thresholds given in non-base units are not converted to Ha, Ha/Å, Å: " + "; ".join(bad), rep)
+            for r in (0.5, 0.95, 1.05, 2.5, 3.5):
+                vv = [None if w is None else w * r for w in want]
+                vv = [0.001 if x is None else x for x in vv]
+                ans, err = call_result(lambda: bool(cobj.meets_criteria(env.CP(**dict(zip(ATTRS, vv))))))
+                what = decision_oracle(want, strict, vv, ans)
+                if what:
+                    fail("meets_criteria|criterion-exceeded", what + f" [thresholds requested as {spec}]",
+                         dict(rep, values=dict(zip(ATTRS, vv))))
     # constructor and multiplication
     ctor = [[1e-3, 1e-3, 1e-3, 1e-3, 1e-3], [0.0, 1e-3, 0.0, 0.0, 0.0], [1e-3, 0.0, 1e-3, 1e-3, 1e-3],
             [-1e-3, 1e-3, None, None, None], [1e-3, -1e-9, None, None, None], [None, 1e-3, None, None, -0.5],
@@ -646,6 +732,19 @@ def gen_cases(ctx, full):
         idx += 1
     cases.append({"name": f"c10r{idx}", "surface": "harm2-at-minimum", "pot": {"kind": "bondnet", "terms": [["h", 0, 1, 0.5, 1.25]]},
                   "atoms": TEMPLATES["h2"], "opt": "rfo", "kwargs": {}, "tol": {"rms_g": 1e-4}, "maxiter": 5, "constraints": []})
+    # long trajectories (> 10 stored points) so that the reload oracle sees two-digit entry names
+    for oname, kw, tolspec in (("sd_cart", {"step_size": 0.12}, "tight"), ("sd_dic", {"step_size": 0.1}, "normal")):
+        cases.append({"name": f"c10r{idx + 6 + len(cases) % 2}{oname}", "surface": "harm3-long",
+                      "pot": {"kind": "bondnet", "terms": [["h", 0, 1, 0.5, 1.0], ["h", 0, 2, 0.6, 1.1], ["h", 1, 2, 0.3, 1.6]]},
+                      "atoms": perturb("tri", 0.1), "opt": oname, "kwargs": kw, "tol": tolspec, "maxiter": 300,
+                      "constraints": [], "min_iterations": 11})
+    # thresholds requested in non-base units
+    for oname, kw in (("sd_cart", {"step_size": 0.4}), ("rfo", {}), ("crfo", {})):
+        cases.append({"name": f"c10ru{oname}", "surface": "harm3-units",
+                      "pot": {"kind": "bondnet", "terms": [["h", 0, 1, 0.5, 1.0], ["h", 0, 2, 0.6, 1.1], ["h", 1, 2, 0.3, 1.6]]},
+                      "atoms": perturb("tri", 0.1), "opt": oname, "kwargs": kw, "maxiter": 200, "constraints": [],
+                      "tol": {"abs_d_e": [0.01, "kcalmol"], "rms_g": [0.02, "eV/ang"], "max_g": [0.05, "eV/ang"],
+                              "rms_s": [0.01, "bohr"], "max_s": [2.0, "pm"], "strict": rng.random() < 0.5}})
     # a step far below 1e-8 A (the geometry-change threshold of Species._reset_properties_for)
     cases.append({"name": f"c10r{idx + 2}", "surface": "harm2-tiny-step", "pot": {"kind": "bondnet", "terms": [["h", 0, 1, 0.5, 1.25]]},
                   "atoms": [["H", 0.0, 0.0, 0.0], ["H", 1.25 + 1e-8, 0.0, 0.0]], "opt": "sd_cart", "kwargs": {"step_size": 0.4},
@@ -780,12 +879,18 @@ def check_run(ctx, env, case, res, fail, terms, descr, factor_lists, coq_budget)
         fail(f"run|convergence-bookkeeping-raises:{type(e).__name__}", f"{label}: optimiser.converged raised {e}", rep)
         return
     ctx.hist("runs", f"{cls}:{'converged' if conv else 'limit'}")
+    if case.get("min_iterations") and it < case["min_iterations"]:
+        ctx.hist("runs", "long-run-too-short")
     # --- a run that is not converged stopped because of the limit
     if not conv and it < maxiter:
         fail(f"run|stopped-early-unconverged:{cls}", f"{label}: left the loop at iteration {it} < {maxiter} unconverged", rep)
     x = np.array(mol.coordinates, dtype=float).reshape(-1, 3)
-    cv = cp_vals(tol)
-    strict = bool(tol.strict)
+    cv, strict = independent_tol(case["tol"])        # what was REQUESTED, in base units
+    cv_impl = cp_vals(tol)
+    if bool(tol.strict) != strict or any((a is None) != (b is None) or (b is not None and finite(b) and abs(a - b) > 1e-4 * abs(b))
+                                         for a, b in zip(cv_impl, cv)):
+        fail("ConvergenceParams|threshold-units-not-converted",
+             f"{label}: the optimiser's conv_tol holds {cv_impl}, the requested thresholds are {cv} in base units", rep)
     # --- the species holds coordinates, energy and gradient of the last evaluated point
     if grads:
         _, xl, el, gl = grads[-1]
@@ -885,7 +990,7 @@ def check_run(ctx, env, case, res, fail, terms, descr, factor_lists, coq_budget)
                 p1, p2 = cp_vals(opt._history.conv_params()), cp_vals(o2._history.conv_params())
                 if any(not (a == b or abs(a - b) <= 1e-12 * max(abs(a), abs(b))) for a, b in zip(p1, p2)):
                     bad.append(f"conv_params {p2} vs {p1}")
-                if o2._maxiter != maxiter or cp_vals(o2.conv_tol) != cv or bool(o2.conv_tol.strict) != strict:
+                if o2._maxiter != maxiter or cp_vals(o2.conv_tol) != cv_impl or bool(o2.conv_tol.strict) != strict:
                     bad.append("maxiter / conv_tol differ")
                 if bad:
                     fail(f"reload|state-differs:{cls}", f"{label}: reloaded with {rc_name}.from_file: " + "; ".join(bad), rep)
@@ -902,8 +1007,8 @@ def check_run(ctx, env, case, res, fail, terms, descr, factor_lists, coq_budget)
     nc, ns = int(fin.n_constraints), int(fin.n_satisfied_constraints)
     parts = [f"check_iteration {coq_nat(hlen)} {coq_nat(it)}",
              f"check_exceeded {coq_nat(it)} {coq_nat(maxiter)} {coq_bool(bool(opt._exceeded_maximum_iteration))}"]
-    if not near_boundary(cv, impl_cp, factor_lists):
-        parts.append(f"check_converged false {coq_nat(nc)} {coq_nat(ns)} {params_lit(impl_cp)} {params_lit(cv, strict)} {res_bool(conv)}")
+    if not near_boundary(cv_impl, impl_cp, factor_lists):
+        parts.append(f"check_converged false {coq_nat(nc)} {coq_nat(ns)} {params_lit(impl_cp)} {params_lit(cv_impl, strict)} {res_bool(conv)}")
     else:
         ctx.hist("runs", "margin-skipped")
     if not cons and grads:
@@ -964,6 +1069,102 @@ def stream_runs(ctx, env, factor_lists, full, fail, only=None):
     return terms, descr
 
 
+# ============================================================================ stream 4: the calculation layer
+CALC_POT = {"kind": "bondnet", "terms": [["h", 0, 1, 0.5, 1.1], ["h", 0, 2, 0.45, 1.05], ["h", 0, 3, 0.55, 1.1],
+                                         ["h", 1, 2, 0.2, 1.55], ["h", 1, 3, 0.2, 1.6], ["h", 2, 3, 0.25, 1.6]]}
+CALC_ATOMS = [["N", 0.0, 0.0, 0.0], ["H", 1.05, 0.1, 0.0], ["H", -0.3, 1.0, 0.1], ["H", -0.4, -0.5, 0.9]]
+
+
+def calc_sequences(rng, full):
+    r1, r2, r3 = round(rng.uniform(1.2, 1.35), 3), round(rng.uniform(1.36, 1.5), 3), round(rng.uniform(1.0, 1.15), 3)
+    seq = [["a", []], ["b", [[0, 1, r1]]],
+           ["scan", [[0, 1, r1]]], ["scan", [[0, 1, r1]]], ["scan", [[0, 1, r2]]], ["scan", [[0, 1, r3]]], ["scan", [[0, 1, r1]]],
+           ["opt", []], ["opt", [[2, 3, 1.75]]], ["opt", [[2, 3, 1.75], [0, 1, r1]]], ["opt", []]]
+    if full:
+        seq += [["scan2", [[0, 2, 1.2], [0, 3, 1.0]]], ["scan2", [[0, 2, 1.0], [0, 3, 1.2]]], ["scan2", [[0, 2, 1.2], [0, 3, 1.0]]],
+                ["a", [[1, 2, 1.7]]], ["b", []], ["b", [[0, 1, r1]]]]
+    return seq
+
+
+def run_calc_sequence(ctx, env, spec, fail, rundir):
+    """Optimisations through Calculation -> CalculationExecutorO -> CRFOptimiser (executors.py:343-474) with the
+    analytic method, all in ONE directory with the calculation registry enabled; oracles after every step."""
+    os.environ.pop("AUTODE_FIXUNIQUE", None)         # the registry is on unless this is "False" (executors.py)
+    os.makedirs(rundir, exist_ok=True)
+    cwd = os.getcwd()
+    os.chdir(rundir)
+    try:
+        pot = make_pot(spec["pot"])
+        M = env.Mock(pot)
+        M.native_opt = False                          # no native optimiser -> built-in CRFO is used
+        env.methods_mod.get_lmethod = lambda: M
+        want, _ = independent_tol("normal")           # CalculationExecutorO.conv_tol = "normal"
+        first = {}
+        for k, (name, cons) in enumerate(spec["sequence"]):
+            mol = env.ade.Molecule(name="tet", atoms=[env.ade.Atom(a[0], a[1], a[2], a[3]) for a in spec["atoms"]])
+            if cons:
+                mol.constraints.distance = {(int(i), int(j)): float(r) for i, j, r in cons}
+            n0 = len(M.log)
+            rep = {"kind": "calc", "pot": spec["pot"], "atoms": spec["atoms"], "sequence": spec["sequence"][:k + 1]}
+            label = f"Calculation '{name}' #{k} with constraints {cons} after {[(n, c) for n, c in spec['sequence'][:k]]}"
+            try:
+                calc = env.Calculation(name, mol, M, keywords=env.OptKeywords())
+                calc.run()
+                conv = bool(calc.optimiser.converged)
+                it = calc.optimiser.iteration
+            except Exception as e:  # noqa
+                ctx.hist("calc", f"raised:{type(e).__name__}")
+                fail("calc|raises", f"{label}: {type(e).__name__}: {str(e)[:200]}", rep)
+                continue
+            grads = [l for l in M.log[n0:] if l[0] == "grad"]
+            reused = not grads
+            ctx.count("calc", (name, json.dumps(cons), k), sample={"name": name, "constraints": cons, "reused": reused})
+            ctx.hist("calc", ("reused" if reused else "ran") + (":converged" if conv else ":unconverged"))
+            x = np.array(mol.coordinates, dtype=float).reshape(-1, 3)
+            e_ind, g_ind = pot.eg(x)
+            bad = []
+            if mol.energy is None or abs(float(mol.energy) - e_ind) > 1e-12 * max(1.0, abs(e_ind)):
+                bad.append(f"species energy {mol.energy!r} is not the energy {e_ind!r} of its geometry")
+            if mol.gradient is None or np.abs(np.array(mol.gradient) - g_ind).max() > 1e-10:
+                bad.append("species gradient is not the gradient at its geometry")
+            if grads and not np.array_equal(x, grads[-1][1]):
+                bad.append("species coordinates are not the last evaluated point")
+            if bad:
+                fail("calc|species-state", f"{label}: " + "; ".join(bad), rep)
+            if it > 50:
+                fail("calc|iteration-exceeds-maxiter", f"{label}: iteration {it} > 50", rep)
+            if conv:
+                for i, j, r in cons:
+                    dist = float(np.linalg.norm(x[i] - x[j]))
+                    if not abs(dist - r) < CONSTRAINT_TOL * (1 + 1e-9):
+                        fail("calc|converged-constraint-unmet",
+                             f"{label}: the calculation's optimiser reports converged but distance({i},{j}) = {dist:.6f} "
+                             f"for the molecule's constraint {r} (tolerance {CONSTRAINT_TOL}); reloaded trajectory: {reused}", rep)
+                rms_g, max_g = projected_measures(g_ind, constraint_vectors(x, cons))
+                for a, v in (("rms_g", rms_g), ("max_g", max_g)):
+                    c = want[ATTRS.index(a)]
+                    if not v <= c * (1 + 1e-5):
+                        fail(f"calc|converged-{a}-above-threshold",
+                             f"{label}: reports converged but independent in-surface {a} = {v:.4e} > {c:.4e}; reloaded: {reused}", rep)
+            key = (name, json.dumps(cons))
+            if key in first:
+                x1, e1, c1 = first[key]
+                if c1 != conv or np.abs(x - x1).max() > 1e-10 or abs(float(mol.energy) - e1) > 1e-12:
+                    fail("calc|repeat-differs", f"{label}: exact repeat gives a different final state (reused={reused})", rep)
+            elif mol.energy is not None:
+                first[key] = (x.copy(), float(mol.energy), conv)
+    finally:
+        os.chdir(cwd)
+
+
+def stream_calc(ctx, env, full, fail):
+    t0 = time.time()
+    for rnd in range(2 if full else 1):
+        spec = {"pot": CALC_POT, "atoms": CALC_ATOMS, "sequence": calc_sequences(ctx.rng, full)}
+        run_calc_sequence(ctx, env, spec, fail, os.path.join(ctx.work, f"calc{rnd}"))
+    ctx.log(f"calculation-layer sequences in {time.time() - t0:.1f}s")
+
+
 # ============================================================================ driver
 def run(ctx):
     full = not ctx.quick
@@ -1012,6 +1213,7 @@ def run(ctx):
         os.chdir(cwd)
     ctx.log(f"scripted stream: {len(t2)} terms")
     t3, d3 = stream_runs(ctx, env, factor_lists, full, fail)
+    stream_calc(ctx, env, full, fail)
     ctx.log(f"implementation oracles: {nfail[0]} failures {dict(seen_keys) if seen_keys else ''}")
     ctx.cov["oracle_failures"] = dict(seen_keys)
     # 4. correspondence
@@ -1078,6 +1280,16 @@ def replay(ctx, obj):
             print("constructor accepted", vals)
         except ValueError as e:
             fail("ConvergenceParams|rejects-legitimate-values", str(e), rep)
+    elif kind == "calc":
+        ctx.cov["streams"] = {}
+        run_calc_sequence(ctx, env, rep, fail, os.path.join(ctx.work, "calc_replay"))
+    elif kind == "params-units":
+        spec = rep["criteria"]
+        want, _ = independent_tol(spec)
+        got = cp_vals(make_tol(env, spec))
+        print("requested (base units):", want, "stored:", got)
+        if any((g is None) != (w is None) or (w is not None and abs(g - w) > 1e-4 * abs(w)) for g, w in zip(got, want)):
+            fail("ConvergenceParams|threshold-units-not-converted", f"{spec}: stored {got}, requested {want}", rep)
     elif kind == "scripted":
         os.makedirs(ctx.work, exist_ok=True)
         os.chdir(ctx.work)
